@@ -57,6 +57,15 @@ def holders():
     add("launch_argument", "let c = chan(1); fn w(c, v) { c <- v; } launch w(c, %s);" % v, "print(<- c);")
     add("parked_fiber_local", "let c = chan(); let d = chan(1); fn w(c, d) { let mine = %s; let go = <- c; d <- [go, mine]; } launch w(c, d); let pre = <- chan(1) == nil ? 0 : 1;" % v if False else
         "let c = chan(); let d = chan(1); fn w(c, d) { let mine = %s; let go = <- c; d <- [go, mine]; } launch w(c, d);" % v, "c <- 'go'; print(<- d);")
+    # closures that are launched and referred to by nothing else: the call frame of the new fiber is the only holder of their captures
+    add("launched_lambda_capture_queued", "let d = chan(1); fn go(d) { let mine = %s; launch (|| { d <- mine; })(); } go(d);" % v, "print(<- d);")
+    add("launched_lambda_capture_parked", "let c = chan(); let d = chan(1); fn go(c, d) { let mine = %s; launch (|| { let g = <- c; d <- [g, mine]; })(); } go(c, d); let warm = chan(1); warm <- 1; <- warm;" % v, "c <- 'go'; print(<- d);")
+    add("launched_lambda_capture_written", "let c = chan(); let d = chan(1); fn go(c, d) { let mine = nil; launch (|| { mine = %s; let g = <- c; d <- [g, mine]; })(); } go(c, d); <- chan(1) == nil;" % v if False else
+        "let c = chan(); let d = chan(1); fn go(c, d) { let mine = nil; launch (|| { mine = %s; let g = <- c; d <- [g, mine]; })(); } go(c, d);" % v, "c <- 'go'; print(<- d);")
+    add("launched_nested_capture", "let d = chan(1); fn outer(d) { let mine = %s; fn mid() { launch (|| { d <- [mine, 'n']; })(); } mid(); } outer(d);" % v, "print(<- d);")
+    add("launched_method_closure", "let d = chan(1); class K { init(v) { self.v = v; } run(d) { launch (|| { d <- [self.v, @v]; })(); } } fn go(d) { K(%s).run(d); } go(d);" % v, "print(<- d);")
+    add("launched_bound_method", "let d = chan(1); class H { init(v) { self.v = v; } send(d) { d <- self.v; } } fn go(d) { launch H(%s).send(d); } go(d);" % v, "print(<- d);")
+    add("launched_chain", "let d = chan(1); fn go(d) { let mine = %s; launch (|| { launch (|| { d <- [mine]; })(); })(); } go(d); let e = chan(1); e <- 1; <- e;" % v, "print(<- d);")
     add("sync_offer", "let c = chan(); fn w(c) { c <- %s; } launch w(c);" % v, "print(<- c);")
     add("closed_channel_buffer", "let c = chan(2); c <- %s; c <- ['second']; c.close();" % v, "print(<- c, <- c, <- c);")
     add("module_level_fn_default", "fn f(a) { let inner = |b| [a, b]; return inner; } let g = f(%s);" % v, "print(g(['arg']));")
